@@ -146,8 +146,8 @@ Section OneTransfer.
 
   Lemma seg_facts s : In s segs ->
     seg_idx s < n /\ seg_data s <> [] /\ (seg_last s = true <-> seg_idx s + 1 = n).
-  Proof.
-    intros Hin. pose proof (shape_bounds _ _ Hshape) as Hb. rewrite Forall_forall in Hb.
+  Proof using Hshape.
+    clear Hge2. intros Hin. pose proof (shape_bounds _ _ Hshape) as Hb. rewrite Forall_forall in Hb.
     destruct (Hb _ Hin) as (_ & H1 & H2 & H3). unfold n. repeat split; try assumption; try lia.
     - intros E. apply H3 in E. lia.
     - intros E. apply H3. lia.
@@ -181,7 +181,7 @@ Section OneTransfer.
       apply perm_skip. exact Hperm.
     - rewrite existsb_app. cbn [existsb]. rewrite orb_false_r.
       destruct (seg_last s) eqn:El.
-      + rewrite orb_true_r. f_equal. apply Hlast in El. lia.
+      + rewrite orb_true_r. f_equal. pose proof (proj1 Hlast eq_refl). lia.
       + rewrite orb_false_r. exact Hend.
   Qed.
 
@@ -245,9 +245,6 @@ Proof.
   destruct (key_eqb k k') eqn:E; [exact IH|]. cbn [plookup]. rewrite E. exact IH.
 Qed.
 
-Lemma seg_mem_fresh cur i x' o :
-  seg_step cur false i [] = (x', o) -> True.
-Proof. trivial. Qed.
 
 Lemma recv_seg_some conv st b x i d x' :
   d <> [] -> seg_step (plookup (conv, x) (r_prog st)) b i d = (Some x', None) ->
@@ -269,8 +266,8 @@ Lemma recv_seg_done conv st b x i d o full :
   /\ r_signals st' = r_signals st ++ [(r_next st, blen full)].
 Proof.
   intros Hd Hs. unfold recv_seg. destruct d as [|d0 dt]; [congruence|].
-  rewrite Hs. unfold add_rx. cbn [fst r_prog r_queue r_next r_signals].
-  rewrite plookup_pdel_same. repeat split; reflexivity.
+  rewrite Hs. unfold add_rx. destruct o; cbn [fst r_prog r_queue r_next r_signals];
+    rewrite plookup_pdel_same; repeat split; reflexivity.
 Qed.
 
 Lemma recv_frame_seg hs xid conv st s :
@@ -312,7 +309,7 @@ Section Reassembly.
     Permutation (l1 ++ rest) segs -> rest <> [] -> RInv l1 (fold_left G l1 st).
   Proof.
     induction l1 as [|s l1 IH] using rev_ind; intros rest Hp Hrest.
-    - cbn [fold_left]. unfold RInv. rewrite Hfresh. repeat split; try reflexivity. apply Rep_init.
+    - cbn [fold_left]. unfold RInv. rewrite Hfresh. split; [apply Rep_init|repeat split; reflexivity].
     - rewrite <- app_assoc in Hp. cbn [app] in Hp.
       rewrite fold_left_app. cbn [fold_left].
       destruct (IH (s :: rest) Hp ltac:(congruence)) as (HR & Hq & Hn & Hsg).
